@@ -74,6 +74,9 @@ type FuncContract struct {
 	Trusted  string
 	Owns     []*Clause
 	Scope    []*Clause
+	OnGo     []*EffectSpec
+	OnRecv   map[string][]*EffectSpec
+	OnSend   map[string][]*EffectSpec
 	Assume   []*Clause // assumed at entry without being checked at call sites (type invariants)
 }
 
@@ -579,6 +582,47 @@ func (db *ContractDB) loadContractFile(path, pkg string) error {
 				return fmt.Errorf("%s: %v", pos, err)
 			}
 			curF.Effects = append(curF.Effects, &EffectSpec{Ghost: strings.TrimPrefix(strings.TrimSpace(rest[:i]), "$"), Expr: e, Text: rest})
+		case "on-go", "on-recv", "on-send":
+			// ghost effects attached to statements of the function under contract:
+			//   on-go: $x = e            at every go statement
+			//   on-recv <chan var>: $x = e   at every receive from that channel variable (v = the value received)
+			if curF == nil {
+				return fmt.Errorf("%s: %s outside func", pos, kw)
+			}
+			body := rest
+			ch := ""
+			if kw == "on-recv" || kw == "on-send" {
+				i := strings.Index(rest, ":")
+				if i < 0 {
+					return fmt.Errorf("%s: on-recv needs '<chan>: $g = expr'", pos)
+				}
+				ch = strings.TrimSpace(rest[:i])
+				body = strings.TrimSpace(rest[i+1:])
+			} else {
+				body = strings.TrimSpace(strings.TrimPrefix(rest, ":"))
+			}
+			i := strings.Index(body, "=")
+			if i < 0 {
+				return fmt.Errorf("%s: bad %s", pos, kw)
+			}
+			e, err := parseSpecExpr(strings.TrimSpace(body[i+1:]))
+			if err != nil {
+				return fmt.Errorf("%s: %v", pos, err)
+			}
+			ef := &EffectSpec{Ghost: strings.TrimPrefix(strings.TrimSpace(body[:i]), "$"), Expr: e, Text: rest}
+			if kw == "on-go" {
+				curF.OnGo = append(curF.OnGo, ef)
+			} else if kw == "on-send" {
+				if curF.OnSend == nil {
+					curF.OnSend = map[string][]*EffectSpec{}
+				}
+				curF.OnSend[ch] = append(curF.OnSend[ch], ef)
+			} else {
+				if curF.OnRecv == nil {
+					curF.OnRecv = map[string][]*EffectSpec{}
+				}
+				curF.OnRecv[ch] = append(curF.OnRecv[ch], ef)
+			}
 		case "inline":
 			for _, n := range splitNames(rest) {
 				if curF != nil {
